@@ -306,6 +306,20 @@ func verifyAll(r *mon.Run, sc *scenario, b *bundle.Bundle, t time.Time, class, m
 				}
 			}
 		}
+		if ok && t.Unix() >= 0 {
+			// ... and t lies inside the window the subset states, which is at most seven days long (date and expires are
+			// unsigned integers on the wire; the arithmetic here is unsigned and overflow-free)
+			if items, derr := rcbor.DecodeAll(vs.Signed, rcbor.Opts{}); derr == nil && len(items) == 1 {
+				if d, x := items[0].MapGet("date"), items[0].MapGet("expires"); d != nil && x != nil && d.Major == 0 && x.Major == 0 {
+					tu := uint64(t.Unix())
+					if !(d.Arg <= tu && tu <= x.Arg && x.Arg-d.Arg <= 604800) {
+						r.Eval(class + ":ACCEPTED-OUTSIDE-ITS-WINDOW")
+						r.Violation(key+":window", fmt.Sprintf("NewVerifier accepted vouched subset %d at t=%d although the subset states date=%d expires=%d (t outside the window, or a window longer than 7 days) (%s)", k, tu, d.Arg, x.Arg, id), det)
+						return
+					}
+				}
+			}
+		}
 		if !ok {
 			r.Eval(class + ":UNSIGNED-SUBSET-ACCEPTED")
 			r.Violation(key+":referee", fmt.Sprintf("NewVerifier accepted vouched subset %d although crypto/ecdsa rejects its signature under authority %d (%s)", k, vs.Authority, id), det)
@@ -836,6 +850,46 @@ func run(r *mon.Run) {
 				s.VouchedSubsets[vk].Sig = sg
 				s.VouchedSubsets[vk].Authority = uint64(len(s.Authorities) - 1)
 			})
+		}
+		// the legitimate key signs the same subset with another window (its holder can sign anything): values with the top
+		// bit set, the ends of the range, reversed and over-long windows. Only the window is wrong - and that must do.
+		if k0 := 0; len(rb.Signatures.VouchedSubsets) > 0 && i%2 == 0 {
+			own := sc.signers[0]
+			now := uint64(mid.Unix())
+			type win struct{ date, expires uint64 }
+			for wi, w := range []win{{1<<63 + now - 100, now + 3600}, {1<<63 | 5, now + 3600}, {^uint64(0), now + 3600}, {1<<63 + now - 100, 1<<63 + now + 3600}, {now - 100, 1<<63 + now}, {now - 100, ^uint64(0)},
+				{now + 100, now + 3600}, {now - 7200, now - 3600}, {now - 100, now - 100 + 604801}, {0, now + 3600}, {now + 50, now - 50}, {1<<62 + now, now + 3600}, {now - 100, now + 3600}} {
+				w := w
+				mutSig(fmt.Sprintf("window-resigned-by-its-own-key#%d", wi), func(s *bundle.Signatures) {
+					signed := s.VouchedSubsets[k0].Signed
+					items, derr := rcbor.DecodeAll(signed, rcbor.Opts{})
+					if derr != nil || len(items) != 1 {
+						return
+					}
+					d, x := items[0].MapGet("date"), items[0].MapGet("expires")
+					if d == nil || x == nil {
+						return
+					}
+					be := func(v uint64) []byte {
+						return []byte{0x1b, byte(v >> 56), byte(v >> 48), byte(v >> 40), byte(v >> 32), byte(v >> 24), byte(v >> 16), byte(v >> 8), byte(v)}
+					}
+					first, second, fv, sv := d, x, w.date, w.expires
+					if x.Start < d.Start {
+						first, second, fv, sv = x, d, w.expires, w.date
+					}
+					out := append([]byte{}, signed[:first.Start]...)
+					out = append(out, be(fv)...)
+					out = append(out, signed[first.End:second.Start]...)
+					out = append(out, be(sv)...)
+					out = append(out, signed[second.End:]...)
+					msg := append(append([]byte(strings.Repeat(" ", 64)+"Web Package 1 "+string(sc.ver)), 0), out...)
+					sg, serr := rsxg.Sign(g, own.id.Key, msg)
+					if serr != nil {
+						return
+					}
+					s.VouchedSubsets[k0].Signed, s.VouchedSubsets[k0].Sig = out, sg
+				})
+			}
 		}
 		for k := range rb.Signatures.VouchedSubsets {
 			k := k
